@@ -5,6 +5,7 @@ import (
 	"io"
 	"os"
 	"os/exec"
+	"time"
 )
 
 // ExecHook, when set, answers every external command started through this
@@ -28,6 +29,8 @@ type Cmd struct {
 	// be started, the state of a real exited process otherwise.
 	ProcessState *os.ProcessState
 
+	ctx context.Context
+
 	real    *exec.Cmd
 	started bool
 	out     []byte
@@ -40,6 +43,7 @@ func Command(name string, arg ...string) *Cmd {
 
 func CommandContext(ctx context.Context, name string, arg ...string) *Cmd {
 	c := Command(name, arg...)
+	c.ctx = ctx
 	return c
 }
 
@@ -56,6 +60,9 @@ func (c *Cmd) String() string {
 
 func (c *Cmd) realCmd() *exec.Cmd {
 	rc := exec.Command(c.Args[0], c.Args[1:]...)
+	if c.ctx != nil {
+		rc = exec.CommandContext(c.ctx, c.Args[0], c.Args[1:]...)
+	}
 	rc.Dir, rc.Env, rc.Stdin, rc.Stdout, rc.Stderr = c.Dir, c.Env, c.Stdin, c.Stdout, c.Stderr
 	return rc
 }
@@ -78,10 +85,43 @@ func (c *Cmd) setState() {
 	}
 }
 
+// simulate runs the command against the tool world in simulated time: it
+// takes the duration the world assigns it; a context whose (simulated)
+// deadline passes first kills it, as os/exec does.
 func (c *Cmd) simulate() {
+	s := active
+	var finish time.Duration
+	if s != nil {
+		if c.ctx != nil && c.ctx.Err() != nil {
+			c.out, c.err = nil, c.ctx.Err()
+			c.setState()
+			Yield("exec.refused")
+			return
+		}
+		var d time.Duration
+		if ExecDurationHook != nil {
+			d = ExecDurationHook(c.Args[0], c.Args[1:])
+		}
+		finish = s.clock + d
+		if c.ctx != nil {
+			if dl, ok := c.ctx.Deadline(); ok && dl.Sub(epoch) < finish {
+				// killed at the deadline
+				kill := dl.Sub(epoch)
+				Yield("exec.start")
+				s.advanceTo(kill)
+				c.out, c.err = nil, context.DeadlineExceeded
+				c.ProcessState = nil
+				Yield("exec.killed")
+				return
+			}
+		}
+	}
 	Yield("exec.start")
 	c.out, c.err = ExecHook(c.Args[0], c.Args[1:], c.Dir)
 	c.setState()
+	if s != nil {
+		s.advanceTo(finish)
+	}
 	Yield("exec.end")
 }
 
